@@ -93,7 +93,7 @@ const ED_L: &str = "1000000000000000000000000000000014def9dea2f79cd65812631a5cf5
 /// encodings of small-order points (RFC 8032 decoding accepts some of them).
 const TORSION: [&str; 14] = [
     "0100000000000000000000000000000000000000000000000000000000000000",
-    "ecffffffffffffffffffffffffffffffffffffffffffffffffffffffffffffff7f",
+    "ecffffffffffffffffffffffffffffffffffffffffffffffffffffffffffff7f",
     "0000000000000000000000000000000000000000000000000000000000000000",
     "0000000000000000000000000000000000000000000000000000000000000080",
     "26e8958fc2b227b045c3f489f2ef98f0d5dfac05d3c63339b13802886d53fc05",
@@ -101,11 +101,11 @@ const TORSION: [&str; 14] = [
     "c7176a703d4dd84fba3c0b760d10670f2a2053fa2c39ccc64ec7fd7792ac037a",
     "c7176a703d4dd84fba3c0b760d10670f2a2053fa2c39ccc64ec7fd7792ac03fa",
     "0100000000000000000000000000000000000000000000000000000000000080",
-    "ecffffffffffffffffffffffffffffffffffffffffffffffffffffffffffffffff",
-    "eeffffffffffffffffffffffffffffffffffffffffffffffffffffffffffffff7f",
-    "eeffffffffffffffffffffffffffffffffffffffffffffffffffffffffffffffff",
-    "edffffffffffffffffffffffffffffffffffffffffffffffffffffffffffffff7f",
-    "edffffffffffffffffffffffffffffffffffffffffffffffffffffffffffffffff",
+    "ecffffffffffffffffffffffffffffffffffffffffffffffffffffffffffffff",
+    "eeffffffffffffffffffffffffffffffffffffffffffffffffffffffffffff7f",
+    "eeffffffffffffffffffffffffffffffffffffffffffffffffffffffffffffff",
+    "edffffffffffffffffffffffffffffffffffffffffffffffffffffffffffff7f",
+    "edffffffffffffffffffffffffffffffffffffffffffffffffffffffffffffff",
 ];
 
 fn big_hex(h: &str) -> Big {
@@ -127,8 +127,7 @@ struct Acc {
     evals: u64,
     fps: HashSet<u64>,
     outcomes: BTreeMap<String, u64>,
-    viols: Vec<(String, String, Value)>,
-    viol_keys: HashSet<String>,
+    viols: Vec<(String, String, Value, u64)>,
     samples: Vec<(String, Value)>,
     vm: Option<VmBox>,
     ed_discriminating: u64,
@@ -139,8 +138,20 @@ impl Acc {
         *self.outcomes.entry(l.to_string()).or_insert(0) += 1;
     }
     fn viol(&mut self, key: String, what: String, case: &Value) {
-        if self.viol_keys.insert(key.clone()) {
-            self.viols.push((key, what, case.clone()));
+        self.viol_n(key, what, case, 1)
+    }
+    fn viol_n(&mut self, key: String, what: String, case: &Value, n: u64) {
+        if let Some(e) = self.viols.iter_mut().find(|e| e.0 == key) {
+            e.3 += n;
+        } else {
+            self.viols.push((key, what, case.clone(), n));
+        }
+    }
+    fn report(self, ctx: &Ctx) {
+        for (k, w, c, n) in self.viols {
+            for _ in 0..n {
+                ctx.violation(k.clone(), w.clone(), c.clone());
+            }
         }
     }
     fn sample(&mut self, slot: &str, v: impl FnOnce() -> Value) {
@@ -159,8 +170,8 @@ fn merge(t: &mut Acc, p: Acc) {
     for (k, v) in p.outcomes {
         *t.outcomes.entry(k).or_insert(0) += v;
     }
-    for (k, w, c) in p.viols {
-        t.viol(k, w, &c);
+    for (k, w, c, n) in p.viols {
+        t.viol_n(k, w, &c, n);
     }
     for (s, v) in p.samples {
         t.sample(&s, || v);
@@ -208,13 +219,15 @@ impl VmBox {
         }
     }
 
-    fn prepare(&mut self, sig: &[u8; 64]) {
+    /// `err_preset`: value put into `$err` before the instruction (the caller passes
+    /// the opposite of the expected outcome, so the instruction has to write it).
+    fn prepare(&mut self, sig: &[u8; 64], err_preset: u64) {
         let b = self.base;
         let vm = &mut self.vm;
         vmkit::set_reg(vm, RegId::PC.to_u8() as usize, self.pc0);
         vmkit::set_reg(vm, RegId::CGAS.to_u8() as usize, 1 << 40);
         vmkit::set_reg(vm, RegId::GGAS.to_u8() as usize, 1 << 40);
-        vmkit::set_reg(vm, RegId::ERR.to_u8() as usize, 0);
+        vmkit::set_reg(vm, RegId::ERR.to_u8() as usize, err_preset);
         vmkit::set_reg(vm, R_OUT as usize, b);
         vmkit::set_reg(vm, R_SIG as usize, b + 64);
         vmkit::set_reg(vm, R_MSG as usize, b + 128);
@@ -234,8 +247,8 @@ impl VmBox {
     }
 
     /// ECK1 (r1 = false) or ECR1 (r1 = true).
-    fn recover(&mut self, r1: bool, sig: &[u8; 64], msg: &[u8; 32]) -> VmOut {
-        self.prepare(sig);
+    fn recover(&mut self, r1: bool, sig: &[u8; 64], msg: &[u8; 32], err_preset: u64) -> VmOut {
+        self.prepare(sig, err_preset);
         self.vm.memory_mut().write_bytes_noownerchecks(self.base + 128, *msg).expect("heap write");
         let ins = if r1 {
             op::ecr1(R_OUT, R_SIG, R_MSG)
@@ -247,8 +260,8 @@ impl VmBox {
     }
 
     /// ED19 with the length register set to `len_reg`.
-    fn ed19(&mut self, pk: &[u8; 32], sig: &[u8; 64], msg: &[u8], len_reg: u64) -> VmOut {
-        self.prepare(sig);
+    fn ed19(&mut self, pk: &[u8; 32], sig: &[u8; 64], msg: &[u8], len_reg: u64, err_preset: u64) -> VmOut {
+        self.prepare(sig, err_preset);
         let b = self.base;
         vmkit::set_reg(&mut self.vm, R_KEY as usize, b + 128);
         vmkit::set_reg(&mut self.vm, R_MSG as usize, b + 256);
@@ -348,13 +361,16 @@ impl Scheme {
 
     /// Ok(true) accepted. For r1 the crate has no verify wrapper: the p256 verifier
     /// is called on (r, s) directly (recovery bit cleared).
-    fn verify(self, sig: &[u8; 64], pk: &[u8; 64], msg: &[u8; 32]) -> Result<bool, String> {
+    fn verify(self, sig: &[u8; 64], key: &[u8; 32], pk: &[u8; 64], msg: &[u8; 32]) -> Result<bool, String> {
         let m = Message::from_bytes(*msg);
         guard::catch_any(|| match self {
-            Scheme::K1 => match PublicKey::try_from(Bytes64::from(*pk)) {
-                Ok(p) => Signature::from_bytes(*sig).verify(&p, &m).is_ok(),
-                Err(_) => false,
-            },
+            // the PublicKey value is the one the library derived from the secret
+            // (PublicKey::try_from(Bytes64) is not used: see `side_observations`)
+            Scheme::K1 => {
+                let p: PublicKey = Self::k1_secret(key).public_key();
+                assert_eq!(*p, *pk);
+                Signature::from_bytes(*sig).verify(&p, &m).is_ok()
+            }
             Scheme::K1K256 => kb::verify(*sig, *pk, &m).is_ok(),
             Scheme::R1 => {
                 use p256::ecdsa::signature::hazmat::PrehashVerifier;
@@ -395,7 +411,8 @@ fn recover_both(
     let lib = sch.recover(sig, msg);
     acc.evals += 1;
     if let Some((opname, r1)) = sch.vm_op() {
-        let o = acc.vm().recover(r1, sig, msg);
+        let preset = matches!(lib, Ok(Some(_))) as u64;
+        let o = acc.vm().recover(r1, sig, msg, preset);
         let ctxs = || format!("scheme={} class={class} sig={} msg={}", sch.name(), hex::encode(sig), hex::encode(msg));
         match &lib {
             Err(_) => {} // a library panic is reported by the caller
@@ -506,7 +523,7 @@ fn eval_ecdsa(sch: Scheme, key: &[u8; 32], msg: &[u8; 32], others: &[[u8; 32]], 
         Err(m) => acc.viol(format!("C17:{sn}:recover:own-signature:panic"), format!("{who}: {m}"), &case),
     }
     if sch.has_verify() {
-        match sch.verify(&sig, &pk, msg) {
+        match sch.verify(&sig, key, &pk, msg) {
             Ok(true) => acc.out(&format!("{sn}:verify:own-signature:accepted")),
             Ok(false) => {
                 acc.out(&format!("{sn}:verify:own-signature:REJECTED"));
@@ -523,6 +540,13 @@ fn eval_ecdsa(sch: Scheme, key: &[u8; 32], msg: &[u8; 32], others: &[[u8; 32]], 
     // other messages
     for m2 in others {
         if m2 == msg {
+            continue
+        }
+        // ECDSA signs the digest reduced mod n: a 32-byte value that differs from
+        // the signed one by n is the same message for the scheme (don't-care)
+        if Big::from_be(m2).divrem(&n).1 == Big::from_be(msg).divrem(&n).1 {
+            let same = matches!(sch.recover(&sig, m2), Ok(Some(k)) if k == pk);
+            acc.out(&format!("{sn}:recover:other-message:congruent-mod-n:{}(dont-care)", if same { "signer" } else { "not-signer" }));
             continue
         }
         match recover_both(sch, "other-message", &sig, m2, &case, acc) {
@@ -542,7 +566,7 @@ fn eval_ecdsa(sch: Scheme, key: &[u8; 32], msg: &[u8; 32], others: &[[u8; 32]], 
             Err(m) => acc.viol(format!("C17:{sn}:recover:other-message:panic"), format!("{who} other={}: {m}", hex::encode(m2)), &case),
         }
         if sch.has_verify() {
-            match sch.verify(&sig, &pk, m2) {
+            match sch.verify(&sig, key, &pk, m2) {
                 Ok(false) => acc.out(&format!("{sn}:verify:other-message:rejected")),
                 Ok(true) => {
                     acc.out(&format!("{sn}:verify:other-message:ACCEPTED"));
@@ -576,8 +600,10 @@ fn eval_ecdsa(sch: Scheme, key: &[u8; 32], msg: &[u8; 32], others: &[[u8; 32]], 
             Ok(None) => acc.out(&format!("{sn}:recover:bit-flip:error")),
             Err(m) => acc.viol(format!("C17:{sn}:recover:bit-flip:panic"), format!("{who} bit {i}: {m}"), &case),
         }
-        if sch.has_verify() {
-            match sch.verify(&f, &pk, msg) {
+        // r1 has no library verify; the direct p256 verifier is only used on the
+        // produced signature and on other messages
+        if sch != Scheme::R1 {
+            match sch.verify(&f, key, &pk, msg) {
                 Ok(acc_) if i == V_BIT => {
                     acc.out(&format!("{sn}:verify:recovery-bit-flip:{}(dont-care)", if acc_ { "accepted" } else { "rejected" }))
                 }
@@ -658,7 +684,7 @@ fn eval_ed(class: &str, pk: &[u8; 32], sig: &[u8; 64], msg: &[u8], acc: &mut Acc
         lens.push(0);
     }
     for len in lens {
-        let o = acc.vm().ed19(pk, sig, msg, len);
+        let o = acc.vm().ed19(pk, sig, msg, len, lib_ok as u64);
         if o.step != Step::Proceed || o.pc_delta != 4 {
             acc.out("vm:ED19:STEP-MISMATCH");
             acc.viol(
@@ -895,7 +921,8 @@ fn explore(ctx: &Ctx) {
             "k1/r1 verify result when only the recovery bit (bit 255 of s) is flipped: verify ignores that bit",
             "ED19 on an empty message: a zero length register means 32 bytes, the empty message is not expressible",
             "which key (or error) recover returns for a wrong message / flipped bit, as long as it is not the signer's",
-            "k1-k256 has no VM instruction (the VM is built on the std backend)"
+            "k1-k256 has no VM instruction (the VM is built on the std backend)",
+            "a 32-byte message congruent mod n to the signed one (e.g. 00..00 and n) is the same message for ECDSA"
         ]),
     );
     // self-check of the small-order constants through the public dalek API
@@ -908,12 +935,23 @@ fn explore(ctx: &Ctx) {
         .collect();
     ctx.set("torsion_self_check", json!(weak));
 
+    // not part of the property: PublicKey::try_from(Bytes64) on the library's own keys
+    let k1keys = ecdsa_keys(Scheme::K1, g);
+    let rejected = k1keys
+        .iter()
+        .filter(|k| PublicKey::try_from(Bytes64::from(*Scheme::k1_secret(k).public_key())).is_err())
+        .count();
+    ctx.set(
+        "side_observations",
+        json!({"PublicKey::try_from(Bytes64) rejected valid library-derived public keys": format!("{rejected} of {}", k1keys.len())}),
+    );
+
     let mut units: Vec<Unit> = vec![];
-    for s in schemes {
-        for k in 0..g {
-            for m in 0..g {
-                units.push(Unit::Ecdsa(s, k, m));
-            }
+    // cheap families first, so that a run cut short by the time budget has seen
+    // every family
+    for m in 0..e {
+        for a in 0..TORSION.len() {
+            units.push(Unit::EdTorsion(m, a));
         }
     }
     for k in 0..e {
@@ -921,9 +959,11 @@ fn explore(ctx: &Ctx) {
             units.push(Unit::Ed(k, m));
         }
     }
-    for m in 0..e {
-        for a in 0..TORSION.len() {
-            units.push(Unit::EdTorsion(m, a));
+    for k in 0..g {
+        for m in 0..g {
+            for s in schemes {
+                units.push(Unit::Ecdsa(s, k, m));
+            }
         }
     }
     let grids: Vec<(Vec<[u8; 32]>, Vec<[u8; 32]>)> = schemes.iter().map(|s| (ecdsa_keys(*s, g), ecdsa_msgs(*s, g))).collect();
@@ -972,9 +1012,7 @@ fn explore(ctx: &Ctx) {
     }
     ctx.set("units_done", json!(done));
     ctx.set("ed25519_cases_where_strict_and_non_strict_differ", json!(total.ed_discriminating));
-    for (k, w, c) in total.viols {
-        ctx.violation(k, w, c);
-    }
+    total.report(ctx);
 }
 
 fn replay(case: &Value, ctx: &Ctx) {
@@ -995,9 +1033,7 @@ fn replay(case: &Value, ctx: &Ctx) {
         }
         other => panic!("unknown case kind {other:?}"),
     }
-    for (k, w, c) in acc.viols {
-        ctx.violation(k, w, c);
-    }
+    acc.report(ctx);
 }
 
 fn main() {
